@@ -227,7 +227,7 @@ def check_call(key, contract, fn, args, kwargs, violations, counts, param_names)
     return result
 
 
-def install(violations, counts, only=None):
+def install(violations, counts, only=None, prefixes=None):
     """Wrap every contracted repository function with its contract (module functions and methods).
     A key  module:Concrete/Defining.method  is the contract of an inherited method for receivers of class Concrete."""
     init()
@@ -235,6 +235,8 @@ def install(violations, counts, only=None):
     groups = {}
     for key, c in reg.items():
         if key.startswith("specs.") or (only is not None and key not in only):
+            continue
+        if prefixes is not None and not any(key.startswith(px) for px in prefixes):
             continue
         modname, qual = key.split(":")
         concrete = None
